@@ -19,7 +19,7 @@
   compatible keeps it, which edits can change the register counts, and that every linear extension (what
   `nx.topological_sort` returns) runs along every wire in wire order.
 -/
-import GraphiqModel.Proofs.Reach
+import GraphiqModel.Proofs.Refine
 import GraphiqModel.Proofs.Topo
 namespace Graphiq.C12
 open Graphiq Graphiq.Dag Relation
@@ -279,7 +279,45 @@ theorem sequence_is_topological_order {c : Dag} (h : DagInv c) :
     ∃ pos : NodeId → Nat, LinearExt c pos ∧ ∀ a ∈ c.nodeIds, ∀ b ∈ c.nodeIds, pos a = pos b → a = b :=
   topo_exists h
 
-/-! ## 7. non-vacuity: concrete operations, edges and a history satisfy the hypotheses -/
+/-! ## 7. refinement: every concrete edit is the obvious list edit on the wires
+
+  `Inv c P` relates the concrete state to the abstract wires `P` (unique: `wires_are_determined`).  The primitives act on
+  the wires as list edits: append (`_add`), insert between two consecutive entries (`_insert_at`), erase (`remove_op`),
+  nothing (`replace_op`), splice-in a list (`unwrap_nodes`, per wrapper node). -/
+
+theorem wires_are_determined {c : Dag} {P P' : Reg → List NodeId} (h : Inv c P) (h' : Inv c P') (r : Reg) : P r = P' r :=
+  h.paths_unique h' r
+
+theorem add_is_append {c : Dag} {P : Reg → List NodeId} (g : Good c P) {op : Op} (hop : OpWF op)
+    (hlive : ∀ r ∈ opRegs op, r.idx < c.regs r.ty) :
+    ∃ P', Inv (c.add_ op) P' ∧ (∀ k ∉ opRegs op, P' k = P k) ∧
+      ∀ k ∈ opRegs op, ∃ pre, P k = pre ++ [.out k] ∧ P' k = pre ++ [.op (c.nodeId + 1), .out k] :=
+  add_refines g hop hlive
+
+theorem insert_at_is_insert_between {c : Dag} {P : Reg → List NodeId} (g : Good c P) {op : Op} (hop : OpWF op)
+    {es : List Edge} (hok : InsertOK c op es) :
+    ∃ P', Inv (c.insertAt_ op es).1 P' ∧ (∀ k ∉ es.map (·.key), P' k = P k) ∧
+      ∀ e ∈ es, ∃ l1 l2, P e.key = l1 ++ e.src :: e.dst :: l2 ∧
+        P' e.key = l1 ++ e.src :: .op (c.nodeId + 1) :: e.dst :: l2 :=
+  insertAt_refines g hop hok
+
+theorem remove_op_is_erase {c : Dag} {P : Reg → List NodeId} (g : Good c P) {i : Nat} (hi : NodeId.op i ∈ c.nodeIds) :
+    Inv (c.removeOp (.op i)).1 (fun k => (P k).erase (.op i)) := removeOp_refines g hi
+
+theorem replace_op_keeps_wires {c : Dag} {P : Reg → List NodeId} (g : Good c P) {i : Nat} {new : Op} (hnew : OpWF new) :
+    Inv (c.replaceOp (.op i) new).1 P := replaceOp_refines g hnew
+
+theorem unwrap_is_splice_in {c : Dag} {P : Reg → List NodeId} (g : Good c P) {i : Nat} {w : Op}
+    (hw : (NodeId.op i, w) ∈ c.nodes) (hk : w.kind = .wrapper) :
+    ∃ r X Y P', w.qregs = [r] ∧ P r = X ++ .op i :: Y ∧
+      Good ((c.unwrapOne (.op i) w.unwrap).1.removeOp (.op i)).1 P' ∧
+      P' r = X ++ ((List.range w.unwrap.length).map fun j => NodeId.op (c.nodeId + 1 + j)) ++ Y ∧
+      (∀ k, k ≠ r → P' k = P k) ∧
+      ∀ p ∈ w.unwrap.zipIdx,
+        (NodeId.op (c.nodeId + 1 + p.2), p.1) ∈ ((c.unwrapOne (.op i) w.unwrap).1.removeOp (.op i)).1.nodes :=
+  unwrapNode_refines g hw hk
+
+/-! ## 8. non-vacuity: concrete operations, edges and a history satisfy the hypotheses -/
 
 def hE0 : Op := Op.oneQubit .hadamard ⟨.e, 0⟩
 def cnotE0P0 : Op := ⟨.cnot, [⟨.e, 0⟩, ⟨.p, 0⟩], [], ["two-qubit"], []⟩
